@@ -249,7 +249,9 @@ class SimServer:
         st = conn.state
         out = [(b"IMPLEMENTATION", cfg.implementation.encode())]
         sasl = cfg.sasl_pre if (not st.tls or cfg.sasl_post is None) else cfg.sasl_post
-        if sasl is not None and sasl is not False:
+        if sasl == "bare":
+            out.append((b"SASL", None))       # a SASL line without a value
+        elif sasl is not None and sasl is not False:
             out.append((b"SASL", " ".join(sasl).encode()))
         out.append((b"SIEVE", cfg.sieve.encode()))
         if cfg.starttls and not st.tls:
@@ -649,7 +651,7 @@ class SimServer:
         if self.cfg.starttls and not st.tls:
             rec.note = "auth-on-plain"
         announced = cfg.sasl_pre if (not st.tls or cfg.sasl_post is None) else cfg.sasl_post
-        if announced is False:
+        if announced is False or announced == "bare":
             announced = None
         seen = {"conn": conn.id, "mech": mech, "announced": list(announced or []), "channel": conn.channel,
                 "tls": st.tls, "decoded": None, "accepted": None, "scope": scope, "steps": 0}
